@@ -17,6 +17,7 @@ import numpy as np
 import pandas as pd
 
 import arith
+import enc
 import gs
 import mc_dag
 import tlc
@@ -68,7 +69,7 @@ def probe_events():
                         tr.add({"k": "unknown", "err": str(e)[:80]}, {**meta, "raised": f"{type(e).__name__}: {str(e)[:100]}"})
                         continue
                     rv = r["probe_m"].to_numpy()
-                    tr.add({"k": "round", "node": "probe_m", "base": dec(base), "dir": direction, "off": dec(off), "x": tr.cells(chunk), "r": tr.cells(rv), "kk": witness(rv, off, base)}, meta)
+                    tr.add({"k": "round", "node": "probe_m", "base": enc.dec_written(base), "dir": direction, "off": enc.dec_written(off), "x": tr.cells(chunk), "r": tr.cells(rv), "kk": witness(rv, off, base)}, meta)
                     tr.add({"k": "equal", "node": "probe_m", "x": tr.cells(u["probe_m"].to_numpy()), "y": tr.cells(chunk)}, {**meta, "what": "rounding=False must return the unrounded value"})
                     tr.add({"k": "conv", "a": "probe_y", "ua": "y", "xa": tr.cells(r["probe_y"].to_numpy()), "b": "probe_m", "ub": "m", "xb": tr.cells(rv)}, {**meta, "what": "derived yearly node must be 12 x the rounded value (not rounded again)"})
                     tr.add({"k": "agg", "node": "probe_m_hh", "kind": "sum", "src": tr.cells(rv), "ids": df["hh_id"].tolist(), "obs": tr.cells(r["probe_m_hh"].to_numpy())}, {**meta, "what": "derived household node must be the sum of the rounded values"})
@@ -131,7 +132,7 @@ def real_job(j):
         x = u[n].to_numpy().astype(float)
         rv = r[n].to_numpy().astype(float)
         meta = {"via": "api", "node": n, "date": date, "base": base, "direction": direction, "offset": off, "tid": tid}
-        tr.add({"k": "round", "node": n, "base": dec(base), "dir": direction, "off": dec(off), "x": tr.cells(x), "r": tr.cells(rv), "kk": witness(rv, off, base)}, meta)
+        tr.add({"k": "round", "node": n, "base": enc.dec_written(base), "dir": direction, "off": enc.dec_written(off), "x": tr.cells(x), "r": tr.cells(rv), "kk": witness(rv, off, base)}, meta)
         tr.add({"k": "equal", "node": n, "x": tr.cells(x), "y": tr.cells(raw[n].to_numpy().astype(float))}, {**meta, "what": "with the arguments supplied as data the unrounded value is reproduced"})
     info["n_events"] = len(tr.events)
     return info, tr
